@@ -8,7 +8,9 @@ Hand-written transition system for `experiment.runtime.control.Controller` +
 * `Op.sched`   one `Controller._schedule` pass (`_input_dependencies_satisfied`, the shutdown
                propagation rules, `finalize_submit_components`: stage-in, subscribe, `run()`);
 * `Op.exit c`  the task of component `c` exits (environment); the exit reason of the k-th
-               execution of `c` is the k-th entry of `c`'s script (`Success` beyond its end);
+               execution of `c` is the k-th entry of `c`'s script (`Success` beyond its end).  The engine of
+               a *repeating* component ends only after `notify_all_producers_finished` (see `notified`) or
+               after `kill()`: before that the operation is not enabled (`canExit`);
 * `Op.pm c`    the controller thread runs `postMortemCheck` for the queued notification of `c`
                (`_restartComponent` or `TransitionComponentToFinalState`);
 * `Op.fin c`   the controller thread runs `finishedCheck` for the queued notification of `c`
@@ -87,6 +89,11 @@ structure CompS where
   execs : Nat := 0
   /-- `finish(st)` was called while the task was running: `st` is set when the task exits -/
   pendingFinal : Option Fin3 := none
+  /-- `ComponentState.stageIn` of a repeating component: the producers whose finished-notification it
+  subscribed to (`[p.notifyFinished for p in self.producers if p.isAlive()]`, merged: the engine is told
+  `notify_all_producers_finished` when ALL of them have emitted; an empty list = told at once);
+  `none` = `stageIn` made no subscription -/
+  watch : Option (List Nat) := none
   deriving Inhabited
 
 inductive Notif | fin (c : Nat) | pm (c : Nat)
@@ -154,7 +161,22 @@ def restartable (wf : Wf) (d : CompDef) (cs : CompS) (r : Reason) : Bool :=
   else if r = .submissionFailed then decide (cs.resub < wf.resubCap) && decide (cs.restarts + 1 ≤ d.maxRestarts)
   else false
 
-def taskExit (wf : Wf) (s : St) (c : Nat) : St :=
+/-- `RepeatingEngine.notify_all_producers_finished` has been called on the engine of `c`: every
+producer that `stageIn` subscribed to has emitted its finished-notification (is in a final state) -/
+def notified (s : St) (c : Nat) : Bool :=
+  match (s.comp c).watch with
+  | some l => l.all fun p => (s.comp p).ctrl.isSome
+  | none => false
+
+/-- the task of `c` can exit now.  A plain engine runs its task once: it may end at any time.  A
+`RepeatingEngine` relaunches its task until it is told that all producers finished (then it ends with the
+exit reason of its last execution) or until `kill()` (= `finish` was called while it ran). -/
+def canExit (wf : Wf) (s : St) (c : Nat) : Bool :=
+  (s.comp c).ran && (s.comp c).exit.isNone &&
+    (!(wf.cdef c).isRepeat || notified s c || (s.comp c).pendingFinal.isSome)
+
+/-- what the exit of the task of `c` does (when it happens) -/
+def taskExitCore (wf : Wf) (s : St) (c : Nat) : St :=
   let cs := s.comp c
   if cs.ran && cs.exit.isNone then
     let r := (wf.cdef c).script.getD cs.execs .success
@@ -168,6 +190,9 @@ def taskExit (wf : Wf) (s : St) (c : Nat) : St :=
       let t := s.upd c fun _ => cs1
       if cs.finishCalled then t else t.push (.pm c)
   else s
+
+def taskExit (wf : Wf) (s : St) (c : Nat) : St :=
+  if canExit wf s c then taskExitCore wf s c else s
 
 def deliverPM (wf : Wf) (s : St) (c : Nat) : St :=
   if Notif.pm c ∈ s.pending then
@@ -187,6 +212,14 @@ def deliverPM (wf : Wf) (s : St) (c : Nat) : St :=
 
 /-- components of stage `k` in `graph.nodes` order -/
 def inStage (wf : Wf) (k : Nat) : List Nat := wf.order.filter fun c => (wf.cdef c).stage == k
+
+/-- `Controller._stopComponents(components of stage k)`: `finish(SHUTDOWN)` for every component that is
+alive and has not been asked to finish - whether the controller subscribed to it (staged in) or not.
+Called by the FAILED branch of `finishedCheck` (second half of `stopStage`) and, on its own, by the
+closure of `_observe_completionCheck` when the external stage-completion hook returns `True`. -/
+def stopComponents (wf : Wf) (s : St) (k : Nat) : St :=
+  (inStage wf k).foldl
+    (fun s c => if (s.comp c).ctrl.isNone && !(s.comp c).finishCalled then finish s c .shutdown else s) s
 
 /-- the FAILED branch of `finishedCheck` for a component of the current (or an earlier) stage -/
 def stopStage (wf : Wf) (s : St) (k : Nat) : St :=
@@ -245,7 +278,14 @@ def visit (wf : Wf) (acc : St × List Nat) (c : Nat) : St × List Nat :=
 
 def viewOf (s : St) (p : Nat) : Nat × View := (p, { state := predState s p, staged := (s.comp p).staged })
 
-def stageIn (s : St) (c : Nat) : St := s.upd c fun x => { x with staged := true }
+/-- `comp.stageIn()` + `comp_staged_in.add(comp)` of `finalize_submit_components`; a repeating component
+that has not been asked to finish subscribes to the producers that are alive now -/
+def stageIn (wf : Wf) (s : St) (c : Nat) : St :=
+  s.upd c fun x =>
+    { x with staged := true,
+             watch := if (wf.cdef c).isRepeat && !x.finishCalled then
+                        some ((wf.cdef c).preds.filter fun p => (s.comp p).ctrl.isNone)
+                      else x.watch }
 
 /-- `comp.run()` of `finalize_submit_components` (the component cannot be SHUTDOWN here) -/
 def runComp (wf : Wf) (s : St) (c : Nat) : St :=
@@ -255,7 +295,7 @@ def runComp (wf : Wf) (s : St) (c : Nat) : St :=
 def schedPass (wf : Wf) (s : St) : St :=
   let r := wf.order.foldl (visit wf) (s, [])
   if r.1.stop then r.1 else
-  r.2.foldl (runComp wf) (r.2.foldl stageIn r.1)
+  r.2.foldl (runComp wf) (r.2.foldl (stageIn wf) r.1)
 
 /-! ## main loop of `Controller.run()` and the stage loop of `elaunch.Run` -/
 
@@ -328,6 +368,14 @@ scheduler has nothing to do -/
 def quiescent (wf : Wf) (s : St) : Bool :=
   s.pending.isEmpty &&
   (comps wf).all (fun c => !((s.comp c).ran && (s.comp c).exit.isNone)) &&
+  (comps wf).all (fun c => !eligible wf s c)
+
+/-- the same with "no live task" replaced by "no task that can exit": a repeating engine that waits for
+`notify_all_producers_finished` is live but not enabled.  `Props/C02` shows that the two notions
+coincide on reachable states (no observer is left waiting for ever). -/
+def quiescentR (wf : Wf) (s : St) : Bool :=
+  s.pending.isEmpty &&
+  (comps wf).all (fun c => !canExit wf s c) &&
   (comps wf).all (fun c => !eligible wf s c)
 
 /-! ## the documented rules as a function of the workflow alone (C02) -/
